@@ -347,3 +347,61 @@ v('c14-store-owner', ['C14'], CTF, "            self.check[k] = i;\n            
 v('c14-from-array', ['C14'], AUF, "            new_id[node_id] = i;\n            old_id[i] = node_id;", "            new_id[i] = node_id;\n            old_id[i] = node_id;", 'C14.R2/from_array')
 v('c14-final-count', ['C14'], AUF, "            if s.is_final {\n                debug_assert!(new_states[i].is_final);\n                self.num_final_states += 1;", "            if !s.is_final {\n                self.num_final_states += 1;", 'C14.R1/Automaton::remap_nodes')
 v('c14-conflict-sentinel', ['C14'], CTF, ".any(|(c, _)| self.check[b + *c as usize] != self.num_states)", ".any(|(c, _)| self.check[b + *c as usize] != 0)", 'C14.R5/base_conflicts')
+
+# ---- C04
+MINF = 'src/minimizer.rs'
+PARF = 'src/partitions.rs'
+v('c04-inactive-none', ['C04'], MINF, """            } else if p.smaller_block(class1, class2) {
+                active1 = true;
+                active2 = false;
+            } else {
+                active1 = false;
+                active2 = true;
+            }""", """            } else if p.smaller_block(class1, class2) {
+                active1 = false;
+                active2 = false;
+            } else {
+                active1 = false;
+                active2 = true;
+            }""", 'C04.R3')
+v('c04-active-one', ['C04'], MINF, "            if s.active {\n                active1 = true;\n                active2 = true;", "            if s.active {\n                active1 = true;\n                active2 = false;", 'C04.R3')
+v('c04-self-first', ['C04'], MINF, """        for b in set.iter() {
+            self.refine_block_with_splitter(s, b)
+        }
+        if self_refine {
+            // must be done last
+            self.refine_block_with_splitter(s, s.block)
+        }""", """        if self_refine {
+            self.refine_block_with_splitter(s, s.block)
+        }
+        for b in set.iter() {
+            self.refine_block_with_splitter(s, b)
+        }""", 'C04.R4')
+v('c04-classes-swapped', ['C04'], MINF, """                self.splitters.add_splitter(&Splitter {
+                    block: j,
+                    char: c,
+                    class: class2,
+                    active: active2,""", """                self.splitters.add_splitter(&Splitter {
+                    block: j,
+                    char: c,
+                    class: class1,
+                    active: active2,""", 'C04.R3')
+v('c04-from-partition-off', ['C04'], AUF, "            new_id[s as usize] = (p.block_id(s) - 1) as usize;", "            new_id[s as usize] = p.block_id(s) as usize;", 'C04.R2')
+v('c04-relabel-old-block', ['C04'], PARF, """        let result = self.base.refine_block(i, p);
+        let (b1, b2) = result;
+        if b1 != 0 && b2 != 0 {
+            // b2 is the new block
+            for x in self.base.block_elements(b2) {
+                self.block_id[x as usize] = b2;""", """        let result = self.base.refine_block(i, p);
+        let (b1, b2) = result;
+        if b1 != 0 && b2 != 0 {
+            // b2 is the new block
+            for x in self.base.block_elements(b1) {
+                self.block_id[x as usize] = b2;""", 'C04.R5')
+v('c04-result-table', ['C04'], PARF, "        if j == 0 {\n            (0, i)\n        } else if j == s.len() {\n            (i, 0)", "        if j == 0 {\n            (i, 0)\n        } else if j == s.len() {\n            (i, 0)", 'C04.R5/BasePartition::refine_block')
+v('c04-remap-condition', ['C04'], AUF, "        if (p.index() as usize) < self.num_states {\n            let remap = StateMapping::from_partition(p);", "        if (p.index() as usize) + 1 < self.num_states {\n            let remap = StateMapping::from_partition(p);", 'C04.R6/minimize')
+v('c04-is-final-closure', ['C04'], AUF, "        let is_final = |i: u32| self.state(i as usize).is_final;\n        let transition_map = self.compile_successors();\n        let delta = |i, j| transition_map.eval(i, j);\n        let num_states = self.num_states as u32;\n        let alphabet_size = transition_map.alphabet_size() as u32;\n        let mut minimizer = Minimizer::new(num_states, alphabet_size, delta, is_final);\n        let p = minimizer.refine();\n        if", "        let is_final = |i: u32| !self.state(i as usize).is_final && i > 0;\n        let transition_map = self.compile_successors();\n        let delta = |i, j| transition_map.eval(i, j);\n        let num_states = self.num_states as u32;\n        let alphabet_size = transition_map.alphabet_size() as u32;\n        let mut minimizer = Minimizer::new(num_states, alphabet_size, delta, is_final);\n        let p = minimizer.refine();\n        if", 'C04.R6/minimize')
+v('c04-split-update-skipped', ['C04'], MINF, "        if j != 0 {\n            // if j == 0, B2 is empty so nothing changes\n            debug_assert_eq!(i, b);\n            self.upate_splitters_after_refinement(i, j)", "        if j != 0 && i != 1 {\n            // if j == 0, B2 is empty so nothing changes\n            debug_assert_eq!(i, b);\n            self.upate_splitters_after_refinement(i, j)", 'C04.R6/refine_block_with_splitter')
+v('c04-delta-char', ['C04'], MINF, "main.refine_block_with_fun(b, |x| delta(x, s.char), s.block)", "main.refine_block_with_fun(b, |x| delta(x, s.class), s.block)", 'C04.R6/refine_block_with_splitter')
+v('c04-pred-class', ['C04'], MINF, "p.refine_block(s.class, |x| main.block_id(delta(x, c)) == i)", "p.refine_block(s.class, |x| main.block_id(delta(x, c)) == j)", 'C04.R3')
+v('c04-count', ['C04'], PARF, "            if p(s[k]) {\n                if j < k {\n                    s.swap(k, j);\n                }\n                j += 1;", "            if p(s[k]) {\n                if j < k {\n                    s.swap(k, j);\n                    j += 1;\n                }", 'C04.R5/BasePartition::refine_block')
